@@ -35,6 +35,7 @@ type gen struct {
 	// statistics for the non-triviality rule
 	maxLive  int  // max number of simultaneously live declarations of one name
 	readAfterInner bool
+	top bool // the statements are generated for the top level of a script: no declarations outside of blocks
 }
 
 func (g *gen) line(d int, format string, a ...any) {
@@ -136,6 +137,14 @@ func (g *gen) print(d int) {
 	g.id++
 	vis := g.visibleNames()
 	g.line(d, "fmt.Println(\"L%d\", %s)", g.id, strings.Join(vis, ", "))
+	if rx.Chance(g.rt, "halves", 1, 3) {
+		// the same variables in expressions whose value depends on their being ints
+		var hs []string
+		for _, v := range vis {
+			hs = append(hs, v+"/2", v+"*3+2000000000")
+		}
+		g.line(d, "fmt.Println(\"H%d\", %s)", g.id, strings.Join(hs, ", "))
+	}
 	if !g.visibleInt("strings") && rx.Chance(g.rt, "usepkg", 1, 4) {
 		g.line(d, "fmt.Println(strings.Repeat(\"pk\", 2))")
 	}
@@ -163,11 +172,33 @@ func (g *gen) stmts(d, depth int, n int) {
 
 func (g *gen) stmt(d, depth int) {
 	g.budget--
-	w := []int{14, 14, 4, 12, 8, 7, 5, 6, 3} // print declare multi assign if for range switch rangeself
+	w := []int{14, 14, 4, 12, 8, 7, 5, 6, 3, 5} // print declare multi assign if for range switch rangeself typedlocal
 	if depth >= g.maxDepth {
 		w[4], w[5], w[6], w[7], w[8] = 0, 0, 0, 0, 0
 	}
+	if g.top && depth == 0 {
+		w[1], w[2], w[9] = 0, 0, 0
+	}
 	switch rx.Weighted(g.rt, "stmt", w...) {
+	case 9:
+		// a variable of another numeric type that lives only in this block: whatever block runs here next time (the
+		// next iteration, a sibling case, the function's next call) starts with fresh variables of its own types
+		g.id++
+		n := fmt.Sprintf("t%d", g.id)
+		switch rx.Uniform(g.rt, 4, "typedform") {
+		case 0:
+			g.line(d, "%s := 1.5", n)
+			g.line(d, "fmt.Println(\"T%d\", %s/2)", g.id, n)
+		case 1:
+			g.line(d, "var %s byte = 200", n)
+			g.line(d, "fmt.Println(\"T%d\", %s+100)", g.id, n)
+		case 2:
+			g.line(d, "%s := uint32(4000000000)", n)
+			g.line(d, "fmt.Println(\"T%d\", %s+500000000, %s/3)", g.id, n, n)
+		default:
+			g.line(d, "var %s float64 = 3", n)
+			g.line(d, "fmt.Println(\"T%d\", %s/2)", g.id, n)
+		}
 	case 0:
 		g.print(d)
 	case 1:
@@ -474,6 +505,68 @@ func TestScopes(t *testing.T) {
 	})
 }
 
+// ---- the same statements at the top level of a script and inside a function -------------------------------------
+//
+// In the script dialect if, for, range and switch statements may stand at the top level. Their blocks (and the
+// variables their headers declare) are scoped like anywhere else: a generated statement list that declares nothing
+// outside of blocks must print the same whether it runs as the body of a function or as top-level statements over the
+// same package-level variables x, y, ws, wss.
+
+type TopCase struct {
+	Body string `json:"body"`
+}
+
+const topHeader = "import \"fmt\"\nimport \"strings\"\nvar x = 100\nvar y = 1\nvar ws = []int{1, 2, 3}\nvar wss = [][]int{{1, 2}, {3}}\nfunc use() {\n\tfmt.Println(strings.Repeat(\"u\", 2), x, y, len(ws), len(wss))\n}\n"
+
+func checkTop(c *TopCase) *ev.Failure {
+	inFunc := goat.EvalOnce(topHeader + "func f() {\n" + c.Body + "}\nf()\nuse()\n")
+	atTop := goat.EvalOnce(topHeader + c.Body + "use()\n")
+	if inFunc.Budget || atTop.Budget {
+		ev.R().Class("discarded:budget")
+		return nil
+	}
+	if inFunc.Stdout != atTop.Stdout || inFunc.Failed() != atTop.Failed() {
+		g, w := strings.Split(atTop.Stdout, "\n"), strings.Split(inFunc.Stdout, "\n")
+		at := 0
+		for at < len(g) && at < len(w) && g[at] == w[at] {
+			at++
+		}
+		gl, wl := "(none)", "(none)"
+		if at < len(g) {
+			gl = g[at]
+		}
+		if at < len(w) {
+			wl = w[at]
+		}
+		return &ev.Failure{Kind: "toplevel", Case: c, Msg: fmt.Sprintf("the same statements behave differently at the top level of a script and inside a function: output line %d is %q at top level and %q in the function (errors: %q / %q)\n--- statements\n%s", at+1, gl, wl, atTop.ErrString(), inFunc.ErrString(), c.Body)}
+	}
+	return nil
+}
+
+func TestTopLevel(t *testing.T) {
+	r := ev.R()
+	n := 0
+	r.RapidCheck(t, func(rt *rapid.T) *ev.Failure {
+		g := &gen{rt: rt, budget: rx.Range(rt, "budget", 5, 30), maxDepth: rx.Range(rt, "maxdepth", 1, 5), top: true}
+		g.push()
+		g.cur()["y"] = true
+		g.print(0)
+		g.stmts(0, 0, 30)
+		g.print(0)
+		c := &TopCase{Body: g.sb.String()}
+		r.Eval(1)
+		if g.maxLive >= 2 {
+			r.Nontrivial(ev.Hash(c.Body))
+			r.Class("toplevel:block_redeclares_a_package_level_name")
+		}
+		n++
+		if n%200 == 1 {
+			r.Sample(c)
+		}
+		return checkTop(c)
+	})
+}
+
 func TestReplay(t *testing.T) {
 	ev.R().RunReplays(t, map[string]ev.ReplayFunc{
 		"source": func(raw json.RawMessage) *ev.Failure {
@@ -482,6 +575,13 @@ func TestReplay(t *testing.T) {
 				return &ev.Failure{Kind: "source", Case: string(raw), Msg: "bad replay: " + err.Error()}
 			}
 			return check(&c)
+		},
+		"toplevel": func(raw json.RawMessage) *ev.Failure {
+			var c TopCase
+			if err := json.Unmarshal(raw, &c); err != nil {
+				return &ev.Failure{Kind: "toplevel", Case: string(raw), Msg: "bad replay: " + err.Error()}
+			}
+			return checkTop(&c)
 		},
 	})
 }
